@@ -31,7 +31,7 @@ type OpeningSet struct {
 	LamSeed uint64      `json:"lambda_seed"`
 }
 
-var polyKinds = []string{"zero", "const", "unit", "sparse", "max", "lowdeg", "random", "random", "random", "u64", "limbedge", "small", "limbedge"}
+var polyKinds = []string{"zero", "const", "unit", "sparse", "max", "lowdeg", "random", "random", "random", "u64", "limbedge", "small", "limbedge", "montedge"}
 var zPatterns = []string{"allequal", "alldistinct", "twofar", "random", "clustered", "everyindex", "random"}
 
 func genLabel(r *Rng) string {
@@ -201,6 +201,37 @@ func genPoly(sp PolySpec) []*big.Int {
 				f[i] = new(big.Int).Mod(edge(), refmodel.R)
 			}
 		}
+	case "montedge":
+		// field elements are stored in Montgomery form (v*2^256 mod r): values whose STORED limbs
+		// are small / have empty or all-ones limbs are the boundary class for code that looks at
+		// raw limbs (IsUint64, IsZero shortcuts, limb-wise comparisons)
+		rinv := new(big.Int).ModInverse(new(big.Int).Lsh(bigOne, 256), refmodel.R)
+		stored := func() *big.Int {
+			switch r.Intn(5) {
+			case 0:
+				return big.NewInt(int64(1 + r.Intn(300)))
+			case 1:
+				return new(big.Int).SetUint64(r.U64())
+			case 2:
+				return new(big.Int).Lsh(new(big.Int).SetUint64(r.U64()), uint(64*(1+r.Intn(3))))
+			case 3:
+				return new(big.Int).Sub(new(big.Int).Lsh(bigOne, uint(64*(1+r.Intn(3)))), bigOne)
+			}
+			return new(big.Int).Lsh(bigOne, uint(r.Intn(250)))
+		}
+		c := new(big.Int).Mod(new(big.Int).Mul(stored(), rinv), refmodel.R)
+		if r.Bool() {
+			// constant polynomial: its value at ANY point is this element
+			for i := range f {
+				f[i] = c
+			}
+		} else {
+			for i := range f {
+				if i < 6 || r.Chance(20) {
+					f[i] = new(big.Int).Mod(new(big.Int).Mul(stored(), rinv), refmodel.R)
+				}
+			}
+		}
 	default:
 		for i := range f {
 			f[i] = r.Scalar()
@@ -215,6 +246,7 @@ type Openings struct {
 	PolyBig [][]*big.Int
 	PolyFr  [][]fr.Element
 	ComRef  []refmodel.Point // reference value of each polynomial's commitment (read from the library's Commit)
+	ComRaw  []*banderwagon.Element // non-nil: the library's Commit returned something that is not a readable point (Z=0); handed on unchanged
 	// prover view
 	Cs []*banderwagon.Element
 	Fs [][]fr.Element
@@ -238,12 +270,18 @@ func Materialise(s *OpeningSet) (*Openings, error) {
 		}
 		c := cfg.Commit(ff)
 		rp, ok := RefFromElem(&c)
+		var raw *banderwagon.Element
 		if !ok {
-			return nil, fmt.Errorf("Commit returned a point with Z=0")
+			// not an infrastructure problem: whatever Commit returns is what an honest caller
+			// would pass on; the oracles downstream judge what happens with it
+			cc := c
+			raw = &cc
+			rp = refmodel.Identity()
 		}
 		o.PolyBig = append(o.PolyBig, fb)
 		o.PolyFr = append(o.PolyFr, ff)
 		o.ComRef = append(o.ComRef, rp)
+		o.ComRaw = append(o.ComRaw, raw)
 	}
 	lam := NewRng(s.LamSeed, len(s.Ops), "lambda")
 	for i, op := range s.Ops {
@@ -253,6 +291,9 @@ func Materialise(s *OpeningSet) (*Openings, error) {
 		var cp *banderwagon.Element
 		if op.PtrOf >= 0 && op.PtrOf < i && s.Ops[op.PtrOf].Poly == op.Poly {
 			cp = o.Cs[op.PtrOf]
+		} else if raw := o.ComRaw[op.Poly]; raw != nil {
+			e := *raw
+			cp = &e
 		} else {
 			e := ElemFromRef(o.ComRef[op.Poly], op.Repr, lam.Scalar())
 			cp = &e
@@ -262,9 +303,22 @@ func Materialise(s *OpeningSet) (*Openings, error) {
 		o.Fs = append(o.Fs, o.PolyFr[op.Poly])
 		o.Zs = append(o.Zs, op.Z)
 		ve := ElemFromRef(o.ComRef[op.Poly], op.VRepr, lam.Scalar())
+		if raw := o.ComRaw[op.Poly]; raw != nil {
+			ve = *raw
+		}
 		o.VCs = append(o.VCs, &ve)
 		y := o.PolyFr[op.Poly][op.Z]
-		o.Ys = append(o.Ys, &y)
+		yp := &y
+		// a caller may hand over ONE object for equal claimed values
+		if s.LamSeed%3 == 0 {
+			for j := 0; j < i; j++ {
+				if s.Ops[j].Poly == op.Poly && s.Ops[j].Z == op.Z {
+					yp = o.Ys[j]
+					break
+				}
+			}
+		}
+		o.Ys = append(o.Ys, yp)
 		o.YBig = append(o.YBig, o.PolyBig[op.Poly][op.Z])
 	}
 	return o, nil
